@@ -168,6 +168,33 @@ def run(R):
         for r in lo["routes"]:
             hist["hoisted_components"] += len(r["builtAt"])
             hist["transient_nodes"] += sum(1 for c in r["comps"] for b in c["built"] if defs[by_uid[b["ctor"]]]["life"] == "transient")
+    # ---- the other families (errors, routes, planted controls): their pipelines are not read by the life model, but the
+    # counting part of the property needs no model: per request, a request-scoped constructor runs at most once and a
+    # singleton constructor never runs
+    n_other = n_other_req = 0
+    for name, d in rt.items():
+        spec = obs[name]["spec"] if name in obs else None
+        if name in progs or not spec or "ctors" not in spec or not d["result"] or "responses" not in d["result"]:
+            continue
+        life = {"c%d" % c["i"]: c["life"] for c in spec["ctors"]}
+        n_other += 1
+        for req, resp in zip(d["requests"], d["result"]["responses"]):
+            n_other_req += 1
+            counts = {}
+            for l in resp.get("trace", []):
+                pl = lifetrace.parse_line(l, name)
+                if pl and pl[0] == "ctor" and pl[1] in life:
+                    counts[pl[1]] = counts.get(pl[1], 0) + 1
+            for c, k in sorted(counts.items()):
+                why = None
+                if life[c] == "request" and k > 1:
+                    why = "request-scoped constructor `%s` ran %d times while one request was served" % (c, k)
+                elif life[c] == "singleton":
+                    why = "singleton constructor `%s` ran while a request was served" % c
+                if why:
+                    fails.append({"program": name, "request": "%s %s script=%s" % (req.get("method"), req.get("path"), req.get("script")),
+                                  "why": why, "trace": resp.get("trace"), "app_module_source": obs[name]["src"]})
+    hist["other_families"] = {"servers": n_other, "requests_counted": n_other_req}
     # ---- `enforce_invariants`: pavexc's own guard vs the model's bookkeeping, on the programs pavexc did not accept
     PANIC = "should be invoked at most once in a request pipeline"
     rej = [o for o in obs.values() if o["rc"] != 0 and lifetrace.usable(o["spec"])]
